@@ -266,3 +266,34 @@ def pi_targets_named_like_functions(i: int, j: int) -> bool:
         if len(got) != 1 or got[0] is not n:
             return False
     return True
+
+
+# --- added after round-4 seeded changes: a document node with SEVERAL element children (fn:parse-xml-fragment) ------------------------------
+
+T_FRAG = P31.parse('parse-xml-fragment($t)')
+
+
+@ob(budget=200, bound='document built by parse-xml-fragment with 2..3 top-level elements whose names come from {item, other} (chosen by the solver), '
+                      'text between them and a nested element: every node path is unique and selects exactly its node',
+    funcs=[N + ':ElementNode.path (parent is a document node)', 'elementpath/xpath30/_xpath30_functions.py:evaluate__parse_xml_fragment'])
+def fragment_document_paths(n0: bool, n1: bool, n2: bool, three: bool) -> bool:
+    """
+    post: _
+    """
+    nm = lambda b: 'item' if b else 'other'   # noqa: E731
+    text = 'head<%s>1</%s>mid<%s>2<sub/></%s>tail' % (nm(n0), nm(n0), nm(n1), nm(n1)) + ('<%s/>' % nm(n2) if three else '')
+    doc = T_FRAG.evaluate(XPathContext(item=1, variables={'t': text}))
+    doc = doc[0] if isinstance(doc, list) else doc
+    nodes = [n for n in _walk(doc) if not isinstance(n, DocumentNode)]
+    paths = [n.path for n in nodes]
+    if len(set(paths)) != len(paths) or len(nodes) != (9 if three else 8):
+        return False
+    for n, p in zip(nodes, paths):
+        got = L(P31.parse(p).evaluate(XPathContext(doc)))
+        if len(got) != 1 or got[0] is not n:
+            return False
+        fp = T_PATH.evaluate(XPathContext(doc, item=n))
+        fp = fp[0] if isinstance(fp, list) and len(fp) == 1 else fp
+        if fp != p:
+            return False
+    return True
